@@ -16,7 +16,40 @@ from checks import mapper_common as mc
 from harness import loopnest as ln
 from harness.core import Check, Machinery
 
-CLAUSES = ("wellformed", "once", "keep", "may", "cap")
+CLAUSES = ("wellformed", "once", "keep", "may", "cap", "fanout", "bounds")
+
+
+def spatial_worlds(ck, n):
+    import random
+    rng = random.Random(ck.seed * 37 + 303)
+    out = []
+    for i in range(n):
+        w = mc.gen_microspec(rng, 900 + i, n_mem=2, bounds=rng.choice([[8, 4, 2], [4, 4, 2], [8, 2, 2]]), kind="matmul")
+        w["keep"]["GLB"] = []
+        w["maykeep"]["GLB"] = ["A", "B", "Z"]
+        w["size"]["GLB"] = rng.choice([256, 512])
+        for c in w["cost"]:
+            for a in w["cost"][c]["tput"]:
+                w["cost"][c]["tput"][a] = [2, 1]
+        w["fanout"] = [{"comp": "PEs", "dim": "X", "n": rng.choice([2, 4])}]
+        vars_ = rng.choice([["m"], ["n", "k"], ["m", "n", "k"], ["k"]])
+        fan = w["fanout"][0]["n"]
+        if len(vars_) > 1 and rng.random() < 0.7:
+            # product operators over several rank variables (a product over one variable is rewritten to the
+            # per-variable operator by Comparison._eval_expressions); keep the constraint satisfiable
+            op, product = rng.choice(["==", "<=", ">=", "<", ">"]), True
+            value = rng.choice([1, 2, 4])
+            if op in (">=", "==") and value > fan:
+                value = fan
+            if op == ">" and value >= fan:
+                value = 1
+            if op == "<" and value == 1:
+                value = 2
+        else:
+            op, product, value = rng.choice(["==", "<="]), False, 1
+        w["lbs"] = [{"comp": "PEs", "dim": "X", "vars": vars_, "op": op, "product": product, "value": value}]
+        out.append(w)
+    return out
 
 
 def run(ck: Check):
@@ -25,9 +58,13 @@ def run(ck: Check):
                "optional Toll) are mapped by the real mapper for ENERGY, LATENCY, ENERGY|LATENCY and "
                "ENERGY|LATENCY|RESOURCE_USAGE; every returned LoopTree is one trace. Non-trivial = returned tree with a "
                "holder below a loop; distinct by (world, metrics, row).")
-    ck.assumptions += ["spatial fanout, loop_bounds constraints and fused-loop limits are not exercised yet: the micro-specs "
-                       "have no spatial dimensions and a single Einsum"]
-    worlds = mc.mapper_worlds(ck, 6 if not thorough else 30, 1, tolls=True)
+    ck.assumptions += ["fused-loop limits are not exercised (single Einsum). Spatial worlds use one Container fanout above the "
+                       "compute with one loop_bounds constraint from the operator/value combinations on which the unchanged mapper "
+                       "does not crash (product==, product<=, product>=, product<, product> with any value; ==, <= with value 1); "
+                       "per-variable >=, >, < and ==/<= with values > 1 make get_padded_choices raise AttributeError on the "
+                       "unchanged tree and are excluded. Spatial loops are executed like temporal loops (tiles, points); their "
+                       "access counts are not modelled."]
+    worlds = mc.mapper_worlds(ck, 4 if not thorough else 24, 1, tolls=True) + spatial_worlds(ck, 5 if not thorough else 30)
     msets = [("ENERGY",), ("LATENCY",), ("ENERGY", "LATENCY"), ("ENERGY", "LATENCY", "RESOURCE_USAGE")]
     cases, info = mc.returned_cases(ck, worlds, msets, detail_both=False)
     unsupported = [c for c, m in info.items() if m.get("unsupported") or m.get("nodes") is None]
@@ -51,8 +88,11 @@ def run(ck: Check):
                                 meta["world"]["keep"], v.get("footprint"), v.get("peak")),
                              {"world": meta["world"], "nodes": nodes, "clause": cl, "metrics": meta["mset"]})
                 break
-        if len(ck.samples) < 4:
+        if any(n["kind"] == "P" for n in nodes):
+            ck.extra["returned_trees_with_spatial_loops"] = ck.extra.get("returned_trees_with_spatial_loops", 0) + 1
+        if len(ck.samples) < 4 or (any(n["kind"] == "P" for n in nodes) and len(ck.samples) < 6):
             ck.sample({"mapping": ln.short(nodes), "metrics": meta["mset"], "sizes": meta["world"]["size"],
+                       "loop_bounds": meta["world"].get("lbs"), "fanout": meta["world"].get("fanout"),
                        "verdict": {k: v.get(k) for k in CLAUSES}, "footprint": v.get("footprint")})
 
 
